@@ -555,7 +555,7 @@ impl Config {
             ("hasher_seed", J::U(self.hash_seed)),
             ("fresh_thread", J::Bool(self.fresh_thread)),
             ("heap_perturbation_seed", J::U(self.heap_junk)),
-            ("entry", J::s(if self.run_using { "cli::exec::run_using" } else { "parse + exec_using" })),
+            ("entry", J::s("parse + exec_using, and cli::exec::run_using separately")),
             ("schedule", self.sched.to_json()),
         ])
     }
@@ -680,19 +680,9 @@ pub fn observe_in(
                         Ok(l) => l,
                         Err(m) => format!("PANIC: {}", m),
                     };
-                    let result = if cfg.run_using {
-                        match rrss::cli::exec::run_using(r, w, source) {
-                            Ok(_) => RunResult::Ok,
-                            Err(e) => RunResult::Err(
-                                String::from_utf8_lossy(&procworld::strip_sgr(e.to_string().as_bytes()))
-                                    .replace("Runtime error: ", ""),
-                            ),
-                        }
-                    } else {
-                        match rrss::exec::exec_using(r, w, &program) {
-                            Ok(()) => RunResult::Ok,
-                            Err(e) => RunResult::Err(e.to_string()),
-                        }
+                    let result = match rrss::exec::exec_using(r, w, &program) {
+                        Ok(()) => RunResult::Ok,
+                        Err(e) => RunResult::Err(e.to_string()),
                     };
                     ("Ok".to_string(), result, lint)
                 }
@@ -700,7 +690,30 @@ pub fn observe_in(
         });
         let probe = rrss::verif_seams::take_dict_order_probe();
         rrss::verif_seams::enable_dict_order_probe(false);
-        let cli = cli_text(source);
+        let mut cli = cli_text(source);
+        // the command-line layer's way of running a program is an entry point
+        // of its own: observed separately in every configuration (what it
+        // reports is compared with what it reports in the other
+        // configurations, not with the interpreter's own error text)
+        {
+            let world2 = World::new(input.to_vec(), cfg.sched.clone(), 1_000_000);
+            let (r2, w2) = (SimReader(world2.clone()), SimWriter(world2.clone()));
+            rrss::verif_seams::set_hash_seed(cfg.hash_seed);
+            let verdict = match guarded(|| match rrss::cli::exec::run_using(r2, w2, source) {
+                Ok(_) => "Ok".to_string(),
+                Err(e) => format!("Err: {}", plain(e.to_string())),
+            }) {
+                Ok(t) => t,
+                Err(m) => format!("PANIC: {}", m),
+            };
+            let wb2 = world2.borrow();
+            cli.push_str(&format!(
+                "\ncli::exec::run_using -> {} after {} bytes of output, hash {:016x}",
+                verdict,
+                wb2.accepted.len(),
+                hash_bytes(&wb2.accepted)
+            ));
+        }
         drop(junk);
         let wb = world.borrow();
         let (parse, result, lint) = match res {
@@ -797,7 +810,7 @@ impl Property for C10 {
     fn evidence_info(&self) -> EvidenceInfo {
         EvidenceInfo {
             level: "exploration",
-            rule: "A scenario is a generated program (arrays given 2-6 non-numeric keys with string/non-string/nested values, then joined, printed, copied, passed to functions, compared, used as keys, cast, built up; some with lint findings, parse errors, listens; a third of the scenarios are C08-style say/listen scripts instead) plus an input, observed under K configurations (quick 8, thorough 32) that vary the dictionary hasher seed (hook), re-parse vs run_using, worker thread vs fresh thread (new OS-random keys for any un-hooked map), heap layout, and benign stream schedules; a sample of scenarios is also run as processes of the hooked binary: `exec` three times with different hasher seeds, environments and stdin kinds, and `lint` and `parse` six times each (the keys a process draws from the operating system for un-hooked hash tables differ between them). All observations (output bytes, Ok/Err, error text, parse error text, lint report; for processes stdout, SGR-stripped stderr, exit status) must be identical. evaluations = in-process executions + process spawns. A scenario is non-trivial when its runs produced at least two distinct raw dictionary iteration orders (measured by the probe in the hook), i.e. the perturbation really reached a dictionary; distinct = distinct program text + input.".into(),
+            rule: "A scenario is a generated program (arrays given 2-6 non-numeric keys with string/non-string/nested values, then joined, printed, copied, passed to functions, compared, used as keys, cast, built up; some with lint findings, parse errors, listens; a third of the scenarios are C08-style say/listen scripts instead) plus an input, observed under K configurations (quick 8, thorough 32) that vary the dictionary hasher seed (hook), worker thread vs fresh thread (new OS-random keys for any un-hooked map), heap layout, and benign stream schedules; a sample of scenarios is also run as processes of the hooked binary: `exec` three times with different hasher seeds, environments and stdin kinds, and `lint` and `parse` six times each (the keys a process draws from the operating system for un-hooked hash tables differ between them). All observations (output bytes, Ok/Err, error text, parse error text, lint report, what the command-line layer's entry points cli::exec::run_using / cli::linter / cli::parser return; for processes stdout, SGR-stripped stderr, exit status) must be identical. evaluations = in-process executions + process spawns. A scenario is non-trivial when its runs produced at least two distinct raw dictionary iteration orders (measured by the probe in the hook), i.e. the perturbation really reached a dictionary; distinct = distinct program text + input.".into(),
             assumptions: vec![
                 "The hooked HashMap (src/verif_seams.rs) stands in for std's RandomState-keyed map: same hashbrown table, different key source; maps not behind the hook (lexer keyword table) are perturbed only by the fresh-thread and process arms, whose seeds the harness does not control.".into(),
                 "Debug renderings are not compared (not messages); NaN-safe comparison by text.".into(),
